@@ -12,24 +12,32 @@ VBUILD = os.path.join(BUILD, 'verus')
 
 
 def build_search(unit, log=None):
-    """build /verif/search/<unit> against /repo (native). Returns path of binary or None."""
+    """build /verif/search/<unit> against the repo under test (native). The crate is copied to
+    .build/search/<unit>/crate with the path dependencies pointed at REPO. Returns binary path."""
+    import shutil
     d = os.path.join(VERIF, 'search', unit)
     if not os.path.isdir(d):
         return None
     tgt = os.path.join(BUILD, 'search', unit)
+    crate = os.path.join(tgt, 'crate')
+    if os.path.isdir(crate):
+        shutil.rmtree(crate)
+    shutil.copytree(d, crate, ignore=shutil.ignore_patterns('Cargo.lock', 'target'))
+    ct = os.path.join(crate, 'Cargo.toml')
+    with open(ct) as f:
+        t = f.read()
+    with open(ct, 'w') as f:
+        f.write(t.replace('/repo/', REPO.rstrip('/') + '/'))
+    if os.path.exists(os.path.join(REPO, 'Cargo.lock')):
+        shutil.copy(os.path.join(REPO, 'Cargo.lock'), os.path.join(crate, 'Cargo.lock'))
     env = dict(os.environ, CARGO_TARGET_DIR=tgt, CARGO_NET_OFFLINE='true')
-    lock = os.path.join(d, 'Cargo.lock')
-    if not os.path.exists(lock) and os.path.exists(os.path.join(REPO, 'Cargo.lock')):
-        import shutil
-        shutil.copy(os.path.join(REPO, 'Cargo.lock'), lock)
-    p = subprocess.run(['cargo', 'build', '--offline', '-q'], cwd=d, env=env, capture_output=True, text=True)
+    p = subprocess.run(['cargo', 'build', '--offline', '-q'], cwd=crate, env=env, capture_output=True, text=True)
     if p.returncode != 0:
-        # a stale lock file can break the build; retry without it
         try:
-            os.remove(lock)
+            os.remove(os.path.join(crate, 'Cargo.lock'))
         except OSError:
             pass
-        p = subprocess.run(['cargo', 'build', '--offline', '-q'], cwd=d, env=env, capture_output=True, text=True)
+        p = subprocess.run(['cargo', 'build', '--offline', '-q'], cwd=crate, env=env, capture_output=True, text=True)
     if p.returncode != 0:
         if log:
             log('search driver for %s failed to build:\n%s' % (unit, p.stderr[-2000:]))
